@@ -129,7 +129,6 @@ func (p *pgObs) serve(c net.Conn) {
 		return
 	}
 	fail := &pgproto3.ErrorResponse{Severity: "ERROR", Code: "XX000", Message: "verif: this database answers nothing"}
-	failed := false
 	for {
 		msg, err := be.Receive()
 		if err != nil {
@@ -137,24 +136,15 @@ func (p *pgObs) serve(c net.Conn) {
 		}
 		switch m := msg.(type) {
 		case *pgproto3.Parse:
+			// net.Pipe is synchronous: answer only when the client has sent its whole batch (Sync)
 			p.record(m.Query)
-			if !failed {
-				failed = true
-				if !send(fail) {
-					return
-				}
-			}
 		case *pgproto3.Query:
 			p.record(m.String)
 			if !send(fail, &pgproto3.ReadyForQuery{TxStatus: 'I'}) {
 				return
 			}
 		case *pgproto3.Sync:
-			if !failed && !send(fail) {
-				return
-			}
-			failed = false
-			if !send(&pgproto3.ReadyForQuery{TxStatus: 'I'}) {
+			if !send(fail, &pgproto3.ReadyForQuery{TxStatus: 'I'}) {
 				return
 			}
 		case *pgproto3.Terminate:
